@@ -300,9 +300,64 @@ pub fn run(ctx: &Ctx) -> CheckResult {
             res.absorb(o);
         }
     }
+    // (d) arbitrarily many calls: long runs past hundreds of thousands of wrap-arounds
+    // (narrow wrap / call counters overflow only after 2^8 or 2^16 wraps)
+    if !res.out.failed() {
+        let mut jobs: Vec<(Cfg, usize)> = vec![];
+        for k in ALL_KINDS {
+            let ps: Vec<usize> = if k.nperiods() == 0 { vec![1] } else { (1..=64).collect() };
+            for p in ps {
+                let calls = if p <= 8 { if th { 1_200_000 } else { 300_000 } } else if th { 300_000 } else { 70_000 };
+                let linear = matches!(k, Kind::Mad | Kind::Cci | Kind::Er);
+                jobs.push((Cfg::of(k, &[p, (p % 3) + 1, (p % 4) + 1], 2.0), if linear && p > 16 { calls / 4 } else { calls }));
+            }
+        }
+        jobs.sort_by_key(|j| std::cmp::Reverse(j.1 * if matches!(j.0.kind, Kind::Mad | Kind::Cci | Kind::Er) { j.0.p[0] } else { 1 }));
+        let outs = par_run(ctx, &jobs, |_, (cfg, calls)| {
+            let mut out = JobOut::default();
+            let mut step = 0usize;
+            let r = std::panic::catch_unwind(std::panic::AssertUnwindSafe(|| {
+                let mut s = make(cfg);
+                for i in 0..*calls {
+                    s.apply(&ordinary(cfg.kind, i));
+                    step += 1;
+                }
+                let _ = s.disp();
+                let _ = s.dbg();
+                let c = s.dup();
+                drop(c);
+                s.ser().is_ok()
+            }));
+            out.stats.states += 1;
+            out.stats.traces += 1;
+            out.stats.transitions += step as u64;
+            out.stats.evaluations += 1;
+            out.stats.nontrivial += 1;
+            match r {
+                Ok(true) => {}
+                _ => {
+                    // the history is too long to list: record its generator and the failing call
+                    let ops: Vec<Op> = (step.saturating_sub(3)..=step).map(|i| ordinary(cfg.kind, i)).collect();
+                    out.fail(
+                        Violation::new(PROP, cfg, &ops, "panic")
+                            .obs(format!("panic / failure at call {} of a long run", step + 1))
+                            .exp("every call returns normally".into())
+                            .det(format!("long run of ordinary inputs (generator ordinary(kind, i), i = 0..{}); ops shown = the last 4 inputs before the failure", calls))
+                            .with("generator", format!("ordinary({}, i) for i in 0..{}; failing call {}", cfg.kind.name(), calls, step + 1)),
+                    );
+                }
+            }
+            out
+        });
+        res.extra.insert("long_runs".into(), json!(jobs.len()));
+        res.absorb(merge_jobs(outs));
+    }
     res.extra.insert("cursor_states".into(), json!(cursor_rows));
     res.rule = "case = (configuration, history mixing ordinary values with NaN, +-inf, +-f64::MAX, subnormals, -0.0, inconsistent bars and resets); every next()/reset() and, in the final state, Display, Debug, clone and bincode serialization must return normally under catch_unwind with overflow checks and debug assertions on; non-trivial = history longer than the period".into();
-    res.bounds = format!("(a) all sequences over {{1.0, 7 special values / 9 special bars, reset}} up to depth {depth}, all 22 indicators, periods 1..4 and multipliers {{2,0,-1,NaN,1e300,inf}}; (b) every period 1..64: default stream of 3n+3 inputs, every prefix length, every special value / reset at every position{}; (c) periods 100, 257, 1000, 4096 with strided positions", if th { ", every pair of positions for n<=16" } else { "" });
-    res.assumptions = vec!["built with overflow-checks = true and debug-assertions = true (profile of /verif/mc)".into()];
+    res.bounds = format!("(a) all sequences over {{1.0, 7 special values / 9 special bars, reset}} up to depth {depth}, all 22 indicators, periods 1..4 and multipliers {{2,0,-1,NaN,1e300,inf}}; (b) every period 1..64: default stream of 3n+3 inputs, every prefix length, every special value / reset at every position{}; (c) periods 100, 257, 1000, 4096 with strided positions; (d) one long run of ordinary inputs per indicator and period 1..64: 3e5 (1.2e6) calls for periods <= 8, 7e4 (3e5) above - past 2^16 wrap-arounds for small periods", if th { ", every pair of positions for n<=16" } else { "" });
+    res.assumptions = vec![
+        "built with overflow-checks = true and debug-assertions = true (profile of /verif/mc)".into(),
+        "counters wider than 16 bits that overflow only after more than ~10^6 calls are out of reach of stage (d)".into(),
+    ];
     res
 }
